@@ -49,7 +49,7 @@ func c40(c *an.Check) {
 	maxF := fv(c, solcPkg, "Controller", "maxHashes")
 	trunc := 0
 	for _, fn := range p.PkgFuncs(solcPkg) {
-		for _, b := range fn.Blocks {
+		for _, b := range an.ScanBlocks(fn) {
 			for _, ins := range b.Instrs {
 				sl, ok := ins.(*ssa.Slice)
 				if !ok || sl.High == nil || !strings.HasSuffix(sl.Type().String(), "[][]byte") {
@@ -416,7 +416,7 @@ func pbCodecSanity(c *an.Check, pkgs func(rel string) bool) {
 			continue
 		}
 		nU++
-		for _, b := range fn.Blocks {
+		for _, b := range an.ScanBlocks(fn) {
 			for _, ins := range b.Instrs {
 				st, ok := ins.(*ssa.Store)
 				if !ok {
@@ -450,7 +450,7 @@ func pbCodecSanity(c *an.Check, pkgs func(rel string) bool) {
 			continue
 		}
 		st := p.NewState(fn)
-		for _, b := range fn.Blocks {
+		for _, b := range an.ScanBlocks(fn) {
 			for _, ins := range b.Instrs {
 				sl, ok := ins.(*ssa.Slice)
 				if !ok || !an.IsParam(sl.X, 1) || sl.High == nil {
